@@ -240,8 +240,27 @@ def run(pid, tier, seed):
                     rep.violation("%s:ties" % sig, "%s with records of equal creation time (groups of %d), window [%s, %s]: printed %d records, "
                                   "expected %d; first difference at position %d" % (f_, group, a_, b_, len(got), len(want),
                                   next((q for q in range(min(len(got), len(want))) if got[q] != want[q]), min(len(got), len(want)))), rec)
+        # ---- the same compressed event log under the SAME file name in two directories (host1/k.evtx.gz, host2/k.evtx.gz), read
+        #      in one run: both are printed whole (each record twice, the first-named file's copy first), run after run
+        same_runs = 0
+        sd_ = os.path.join(sc, "samename")
+        for sub in ("host1", "host2"):
+            os.makedirs(os.path.join(sd_, sub))
+            shutil.copyfile(src + ".gz", os.path.join(sd_, sub, "k.evtx.gz"))
+        want2 = [x["id"] for x in emit for _ in (0, 1)]
+        for q in range(5 if tier == "quick" else 20):
+            tmp_ = os.path.join(sd_, "tmp%d" % q)
+            os.makedirs(tmp_)
+            rr = common.run_s4(["--color", "never", "host1/k.evtx.gz", "host2/k.evtx.gz"], cwd=sd_, tmpdir=tmp_, timeout=120)
+            same_runs += 1
+            got2 = [int(x) for x in RID.findall(rr.out)]
+            left_ = os.listdir(tmp_)
+            if rr.crashed or got2 != want2 or left_:
+                rep.violation("same-name:compressed", "host1/k.evtx.gz + host2/k.evtx.gz: %d records printed, %d expected (rc=%s, %r, left in TMPDIR: %s)"
+                              % (len(got2), len(want2), rr.rc, rr.err[:120], left_), {"kind": "c10-samename", "run": q, "rc": rr.rc})
+                break
         rep.coverage = {"states": r.distinct, "transitions": r.generated, "traces_validated_against_impl": accepted,
-                        "evaluations": len(runs) + tie_runs, "distinct_nontrivial": on_time, "equal_time_variants": tie_files, "equal_time_runs": tie_runs,
+                        "evaluations": len(runs) + tie_runs, "distinct_nontrivial": on_time, "equal_time_variants": tie_files, "equal_time_runs": tie_runs, "same_name_runs": same_runs,
                         "rule": "one evaluation = one run of the binary on the .evtx file (or a compressed form) with one window; "
                                 "non-trivial = a bound exactly equal to a record's creation time",
                         "samples": samples, "records": len(recs), "inversions_in_file": sum(
